@@ -1288,8 +1288,14 @@ func popOnExhaustion(w *World, m *runnerModel, pop *ast.CallExpr) (bool, string)
 					return false, "the pop is guarded by " + s + ", not by the exhaustion of the top queue"
 				}
 			}
-			// followed by return of the recursive call
+			// followed by return of the recursive call — or by the jump back to the entry of Next, which is the same
+			// continuation without the stack frame
 			last := is.Body.List[len(is.Body.List)-1]
+			if br, ok := last.(*ast.BranchStmt); ok && br.Tok == token.GOTO && br.Label != nil && len(m.next.Body.List) > 0 {
+				if ls, ok := m.next.Body.List[0].(*ast.LabeledStmt); ok && ls.Label.Name == br.Label.Name {
+					return true, "popped only when the top queue is exhausted, then the search continues from the entry of Next"
+				}
+			}
 			if ret, ok := last.(*ast.ReturnStmt); ok && len(ret.Results) == 1 {
 				if call, ok := ret.Results[0].(*ast.CallExpr); ok {
 					if callee := calleeOf(info, call); callee != nil && w.byObj[callee] == m.next {
